@@ -103,6 +103,10 @@ var (
 	pJSONBad = func() any {
 		return ops.ParseJSON(`{"action":"ietf-json-patch","patches":[{"op":"remove","path":"/nonexistent"}]}`)
 	}
+	// a replace patch behind a patch that cannot be applied: the whole list is inapplicable
+	pReplaceDoc = func() any {
+		return ops.ParseJSON(`{"action":"replace","document":{"publicKeys":[` + ops.PubKeyJSON("kr", keys.New("P-256", 9), `["authentication"]`) + `],"services":[{"id":"sr","type":"T","serviceEndpoint":"https://sr.example/"}]}}`)
+	}
 	pDisabled = func() any { return ops.ParseJSON(`{"action":"remove-also-known-as","uris":["https://aka.example/1"]}`) }
 	pInvalid  = func() any {
 		return ops.ParseJSON(`{"action":"add-public-keys","publicKeys":[{"id":"bad id!","type":"JsonWebKey2020","publicKeyJwk":{"kty":"EC","crv":"P-256","x":"AA","y":"AA"}}]}`)
@@ -176,6 +180,7 @@ func Alphabet(sigTypes []string, suffix string) []Sym {
 	}
 	mkCreate("delta-at-size-limit", []any{pAtLimit("padc")}, "o8b", nil)
 	mkCreate("inapplicable", []any{pAddKey1(), pJSONBad()}, "o9", nil)
+	mkCreate("inapplicable-before-replace", []any{pJSONBad(), pReplaceDoc(), pAKA()}, "o9r", nil)
 	mkCreate("bad-recovery-commitment", []any{pAddKey1()}, "o10", func(c ops.M, d *sidetree.Desc) {
 		c["suffixData"].(ops.M)["recoveryCommitment"] = "zzzz"
 		d.Refused = true
@@ -289,6 +294,7 @@ func Alphabet(sigTypes []string, suffix string) []Sym {
 			return ops.ValidUpdate(suffix, s, n, []any{pAKA()}, Code, none)
 		})
 		mkUpdate("inapplicable", e, []any{pAKA(), pJSONBad()}, none, nil)
+		mkUpdate("inapplicable-before-replace", e, []any{pAKA(), pJSONBad(), pReplaceDoc()}, none, nil)
 		mkUpdate("delta-at-size-limit", e, []any{pAtLimit("padu")}, none, nil)
 		mkUpdate("unparsable", e, nil, none, func(s, n *keys.Key, d *sidetree.Desc) ops.M {
 			d.Refused = true
@@ -374,6 +380,7 @@ func Alphabet(sigTypes []string, suffix string) []Sym {
 			return ops.ValidRecover(suffix, s, nr, nu, []any{pDisabled()}, Code, "rd", none)
 		})
 		mkRecover("inapplicable", e, []any{pAddKey1(), pJSONBad()}, "rx", none, nil)
+		mkRecover("inapplicable-before-replace", e, []any{pJSONBad(), pReplaceDoc()}, "rxr", none, nil)
 		mkRecover("delta-at-size-limit", e, []any{pAtLimit("padr")}, "rl", none, nil)
 		{
 			t := int64(b.anchor().Time)
